@@ -281,6 +281,10 @@ def process_unit(template):
                 hit = [x for x in failed if x.endswith("::" + fm["name"])]
                 if not hit:
                     res["vacuous"].append(fm["name"])
+            for ln in getattr(u, "lemmas", []):
+                if not [x for x in failed if x.endswith("::" + ln)]:
+                    res["vacuous"].append("lemma " + ln)
+            res["lemmas"] = list(getattr(u, "lemmas", []))
             if res["vacuous"]:
                 res["canary_ok"] = False
                 res["status"] = "undecided"
